@@ -431,6 +431,9 @@ def check_C10(tier, seed):
             size = "small" if (tier == "quick" or i % 3) else "medium"
             for mode in (["never"], ["pred"], ["term", 3 + i % 7]):
                 jobs.append((fam, seed * 1000 + i, size, mode))
+        # simultaneous events that differ only beyond the 32 payload bytes stored in the message header (order decided by the trailing part)
+        for i in range(10 if tier == "quick" else 60):
+            jobs.append(("longties", seed * 1000 + 500 + i, "small", ["never"] if i % 3 else ["pred"]))
 
         def one(j):
             fam, ms, size, mode = j
